@@ -473,11 +473,23 @@ func (m *Monitors) PostTimeout(n *Node, pre *deliveryCtx, h, v uint64, effects [
 // OnRecoveredPanic: the worker recovered from a panic while handling the message being delivered.
 // Dropping bytes the reference decoder cannot read either is the intended behaviour; a panic while
 // handling a message that decodes completely is a defect in the handling code.
+func isConsumerPanic(r interface{}) bool {
+	if pr, _, ok := leanhelix.VerifFilterPanicOf(r); ok {
+		r = pr
+	}
+	_, ok := r.(spi.ConsumerPanic)
+	return ok || strings.Contains(fmt.Sprint(r), "consumer panic:")
+}
+
 func (m *Monitors) OnRecoveredPanic(n *Node, r interface{}) {
 	if m.probe == nil {
 		m.probe = map[string]bool{}
 	}
 	m.probe[n.Id] = true
+	if isConsumerPanic(r) {
+		m.Stats["consumer validator panics recovered by the library"]++
+		return
+	}
 	if pr, msg, ok := leanhelix.VerifFilterPanicOf(r); ok {
 		// recovered by the height filter: msg is the message that was being processed (the delivered one or a cached one)
 		var raw *interfaces.ConsensusRawMessage
@@ -502,6 +514,10 @@ func (m *Monitors) OnRecoveredPanic(n *Node, r interface{}) {
 }
 
 func (m *Monitors) OnPanic(n *Node, what string, r interface{}) {
+	if isConsumerPanic(r) {
+		m.Stats["consumer validator panics that escaped the worker (not judged: the consumer's fault)"]++
+		return
+	}
 	m.violate("C12", "panic:"+panicClass(fmt.Sprint(r)), "node %s panicked in %s: %v", n.Id, what, r)
 }
 
